@@ -51,10 +51,28 @@ def parseMCNPSurface(mcnp_parser):
     return dict_surface
 
 
+# number of parameters accepted for each elementary surface type
+N_PARAMS = {
+    MS.PX: (1,), MS.PY: (1,), MS.PZ: (1,), MS.P: (4, 9),
+    MS.SO: (1,), MS.S: (4,), MS.SX: (2,), MS.SY: (2,), MS.SZ: (2,),
+    MS.C_X: (3,), MS.C_Y: (3,), MS.C_Z: (3,),
+    MS.CX: (1,), MS.CY: (1,), MS.CZ: (1,),
+    MS.K_X: (4, 5), MS.K_Y: (4, 5), MS.K_Z: (4, 5),
+    MS.KX: (2, 3), MS.KY: (2, 3), MS.KZ: (2, 3),
+    MS.SQ: (10,), MS.GQ: (10,),
+    MS.TX: (5, 6), MS.TY: (5, 6), MS.TZ: (5, 6),
+    MS.X: (2, 4), MS.Y: (2, 4), MS.Z: (2, 4),
+}
+
+
 def normalize_surface(typ, params):
     '''Put the surface parametrization in a canonical form. For instance,
     planes defined by three points are transformed into the equivalent
     (A,B,C,D) representation.'''
+    if typ in N_PARAMS and len(params) not in N_PARAMS[typ]:
+        expected = ' or '.join(str(n) for n in N_PARAMS[typ])
+        raise ValueError(f'Wrong number of parameters for surface type '
+                         f'{typ.name} (expected {expected}): {params}')
     if typ == MS.P:
         if len(params) == 9:
             params = planeParamsFromPoints(params[0:3],
